@@ -1130,7 +1130,21 @@ func (g *pktGen) routing6(next uint8, max bool) {
 		w.MU8(2, "routing.type")
 		w.MU8(1, "routing.segleft")
 		w.U32(0)
-	case 2: // type 3, RPL source route header without compression
+	case 2: // type 3, RPL source route header (RFC 6554), with or without address compression
+		if g.r.Chance(0.6) {
+			ci, ce := g.r.Intn(16), g.r.Intn(16)
+			size := (n-1)*(16-ci) + (16 - ce)
+			pad := (8 - size%8) % 8
+			w.MU8(uint8((size+pad)/8), "ext.len")
+			w.MU8(3, "routing.type")
+			w.MU8(uint8(g.r.Intn(n+1)), "routing.segleft")
+			w.MU8(uint8(ci<<4|ce), "routing.rpl.cmpr")
+			w.MU8(uint8(pad<<4), "routing.rpl.pad")
+			w.U16(0)
+			w.Bytes(g.r.Bytes(size))
+			w.Zero(pad)
+			return
+		}
 		w.MU8(uint8(2*n), "ext.len")
 		w.MU8(3, "routing.type")
 		w.MU8(uint8(g.r.Intn(n+1)), "routing.segleft")
